@@ -165,16 +165,35 @@ macro_rules | `(tactic| ni_step) => `(tactic| with_reducible apply NI.guardRemov
 theorem NI.frontStep {w : World} (h : NI w) (g : Nat) (gd : Guard) : NI (frontStep w g gd) := by
   unfold S3.frontStep; ni
 
-theorem NI.guardSignal : ∀ (fuel : Nat) {w : World}, NI w → ∀ g, NI (guardSignal fuel w g) := by
+theorem NI.condSignal_fst {w : World} (h : NI w) (g : Nat) : NI (condSignal w g).1 := by
+  simp only [Sim.condSignal]
+  split
+  · exact h
+  · split
+    · exact h
+    · refine NI.foldl (fun w q h => by ni) _ ?_
+      exact NI.foldl (fun w q h => by ni) _ h
+macro_rules | `(tactic| ni_step) => `(tactic| with_reducible apply NI.condSignal_fst)
+
+theorem NI.ownStep {w : World} (h : NI w) (fwd : Bool) (g : Nat) (gd : Guard) : NI (ownStep fwd w g gd) := by
+  unfold S3.ownStep
+  split
+  · exact h.condSignal_fst g
+  · exact h.frontStep g gd
+
+theorem NI.guardSignalF : ∀ (fuel : Nat) (fwd : Bool) {w : World}, NI w → ∀ g, NI (guardSignalF fwd fuel w g) := by
   intro fuel
   induction fuel with
-  | zero => intro w h g; rw [guardSignal_zero]; exact h.fail _
+  | zero => intro fwd w h g; rw [guardSignalF_zero]; exact h.fail _
   | succ fuel ih =>
-    intro w h g
-    rw [guardSignal_succ]
+    intro fwd w h g
+    rw [guardSignalF_succ]
     split
     · exact h
-    · exact NI.foldl (fun w o h => ih h o) _ (h.frontStep g _)
+    · exact NI.foldl (fun w o hw => ih true hw o) _ (h.ownStep fwd g _)
+
+theorem NI.guardSignal (fuel : Nat) {w : World} (h : NI w) (g : Nat) : NI (guardSignal fuel w g) :=
+  NI.guardSignalF fuel false h g
 
 theorem NI.signal {w : World} (h : NI w) (g : Nat) : NI (signal w g) := NI.guardSignal 8 h g
 macro_rules | `(tactic| ni_step) => `(tactic| with_reducible apply NI.signal)
@@ -316,15 +335,6 @@ theorem NI.pqPutLoop_fst {w : World} (h : NI w) (p : Pid) (k obj : Nat) (pri : I
   simp only [Sim.pqPutLoop]; ni
 macro_rules | `(tactic| ni_step) => `(tactic| with_reducible apply NI.pqPutLoop_fst)
 
-theorem NI.condSignal_fst {w : World} (h : NI w) (g : Nat) : NI (condSignal w g).1 := by
-  simp only [Sim.condSignal]
-  split
-  · exact h
-  · split
-    · exact h
-    · refine NI.foldl (fun w q h => by ni) _ ?_
-      exact NI.foldl (fun w q h => by ni) _ h
-macro_rules | `(tactic| ni_step) => `(tactic| with_reducible apply NI.condSignal_fst)
 
 theorem NI.acquireStep_fst {w : World} (h : NI w) (p : Pid) (r : Nat) : NI (acquireStep w p r).1 := by
   simp only [Sim.acquireStep]; ni
